@@ -299,6 +299,7 @@ def run(ctx):
     lines = [c.line for c in cases]
     impl, mod = run_both(lines, model)
     mismatches = []
+    oracle_fails = []
     unsup = 0
     for case, il, ml in zip(cases, impl, mod):
         fi = il.split(" ")
@@ -325,17 +326,24 @@ def run(ctx):
         for t in case.toks:
             ctx.bump("token", t)
         for path, d in oracle(case, il):
-            ctx.violation({"kind": "ancestor_pruned"},
-                          "glob %r (%s%s) fully matches %r but directory %r is rejected by %s"
-                          % (case.glob, "selector, base %s" % BASE if case.mode == "S" else "Pattern", ", -i" if case.ci else "",
-                             path, d, "matches_dir" if case.mode == "S" else "matches_partially"),
-                          replay_payload(case, il, ml, {"path": path, "dir": d}), found_input=True)
+            oracle_fails.append((len(case.glob), len(path), case.mode, case.ci, case, il, ml, path, d))
         if ml.startswith("unsup"):
             unsup += 1
             continue
         if il != ml:
             mismatches.append((case, il, ml))
     ctx.extra["cases_outside_class_fragment_oracle_only"] = unsup
+    if oracle_fails:
+        # report the smallest failing (glob, path): shortest glob, then shortest path, Pattern level before selector level
+        _, _, _, _, case, il, ml, path, d = min(oracle_fails, key=lambda t: t[:4])
+        minimal = Case(case.mode, case.ci, case.toks, [path], case.glob)
+        ctx.violation_counts["ancestor_pruned"] = len(oracle_fails)
+        ctx.violation({"kind": "ancestor_pruned"},
+                      "glob %r (%s%s) fully matches %r but %s %r is rejected by %s (%d failing (glob, path) pairs this run)"
+                      % (case.glob, "selector, base %s" % BASE if case.mode == "S" else "Pattern", ", -i" if case.ci else "",
+                         path, "the path itself" if d == path else "its ancestor directory", d,
+                         "matches_dir" if case.mode == "S" else "matches_partially", len(oracle_fails)),
+                      replay_payload(minimal, il, ml, {"path": path, "dir": d, "full_case_line": case.line}), found_input=True)
 
     # --- 2. get_fixed_prefix on arbitrary strings -------------------------------------------------
     fl = fixed_prefix_cases(ctx)
